@@ -218,6 +218,49 @@ def explore(ctx, depth):
         ctx.exhaustive = True
     else:
         ctx.exhaustive = True  # the quick plan still enumerates all 37 / 37x37 / 38x38 completely
+    # ---- the answers belong to the caller, and questions about things that are not categories leave no trace: after editing every returned
+    # set in place (through the enum and through the mapper class, positional and keyword calls) and after asking about non-categories,
+    # the tree functions, all(), valid(include=None) and match(include=None) answer as the tables say
+    def abuse():
+        for c in cats[:37]:
+            for got in (TC.children(c), TC.nodes(c), TC.leaves(c), M.children(c), M.nodes(c), M.leaves(c), M.children(parent=c), M.nodes(parent=c), M.leaves(target=c)):
+                if hasattr(got, 'add'):
+                    got.add(c); got.discard(next(iter(got)))
+                    got.clear()
+        a1, a2 = TC.all(), M.all()
+        a1.clear(); a2.discard(TC.CORE)
+        v = M.valid(include=None, exclude=None); v.clear()
+        for bad in ('CORE', None, 3, 'nonsense', 1.5):
+            for f in (TC.children, TC.leaves, TC.nodes, M.children, M.leaves, M.nodes):
+                try:
+                    f(bad)
+                except Exception:  # noqa
+                    pass
+            try:
+                TC.is_child(child=bad, parent=TC.CORE)
+            except Exception:  # noqa
+                pass
+    call(abuse)
+    ctx.check({'fn': 'all', 'after': 'edits and non-category questions'}, call(lambda: canon(TC.all())), {'ok': sorted(t['all'])}, {'ok': list(range(37))},
+              what='all() after the caller edited earlier answers / asked about non-categories')
+    ctx.check({'fn': 'mapper.all', 'after': 'edits and non-category questions'}, call(lambda: canon(M.all())), {'ok': sorted(t['all'])}, {'ok': list(range(37))},
+              what='mapper.all() after the caller edited earlier answers / asked about non-categories')
+    ctx.check({'fn': 'valid(None, None)', 'after': 'edits and non-category questions'}, call(lambda: canon(M.valid(include=None, exclude=None))), {'ok': sorted(t['all'])},
+              {'ok': list(range(37))}, what='valid(include=None) after the caller edited earlier answers / asked about non-categories')
+    for i, c in enumerate(cats[:37]):
+        for fn in ('children', 'nodes', 'leaves'):
+            for via, obj in (('enum', TC), ('mapper', M)):
+                impl = call(lambda: canon(getattr(obj, fn)(c)))
+                ctx.check({'fn': fn, 'target': c.name, 'via': via, 'after': 'edits and non-category questions'}, impl, {'ok': sorted(t[fn][i])}, {'ok': sorted(t['spec_' + fn][i])},
+                          what=f'{fn}({c.name}) after the caller edited an earlier answer')
+        m = call(lambda: bool(M.match(c, include=None, exclude=None)))
+        ctx.check({'fn': 'match(include=None)', 'target': c.name, 'after': 'edits and non-category questions'}, m, {'ok': True}, {'ok': True},
+                  what='match with include=None after non-category questions')
+        for j, d in enumerate(cats[:37]):
+            if (i + j) % 3 == 0:
+                impl = call(lambda: bool(TC.is_child(child=d, parent=c)))
+                ctx.check({'fn': 'is_child', 'parent': c.name, 'child': d.name, 'after': 'edits and non-category questions'}, impl, {'ok': t['is_child'][i][j]},
+                          {'ok': t['spec_is_child'][i][j]}, what='is_child after the caller edited earlier answers')
 
 
 def _strip(r):
